@@ -284,3 +284,126 @@ func ownershipOf(p *Pkg, f *Facts, fn, prefix string, rules []roleRule) {
 	f.Ints[prefix+"Goroutines"] = int64(len(gs))
 	f.raw("def %sGoroutines : Nat := %d\n", prefix, len(gs))
 }
+
+// ---- a goroutine that is not part of the call: Close / IsClosed against Do / Ping
+//
+// Field-level view: which fields of *Client a function (with everything it calls inside package ch, closures
+// included) reads, and which it re-assigns (`c.f = …`, `c.f++`, `&c.f`), and whether that happens in a function that
+// takes a lock.  What the pointee of a field allows (net.Conn, *zap.Logger) is its own contract; the field itself is
+// plain memory.
+
+type fieldOp struct {
+	field   string
+	assign  bool
+	guarded bool
+}
+
+type fieldCtx struct {
+	p     *Pkg
+	f     *Facts
+	memo  map[*ast.FuncDecl]map[fieldOp]bool
+	stack map[*ast.FuncDecl]bool
+}
+
+func (o *fieldCtx) scan(body ast.Node, recv string) map[fieldOp]bool {
+	out := map[fieldOp]bool{}
+	hasLock := false
+	assigned := map[ast.Expr]bool{}
+	ast.Inspect(body, func(n ast.Node) bool {
+		switch st := n.(type) {
+		case *ast.CallExpr:
+			if s, ok := st.Fun.(*ast.SelectorExpr); ok && (s.Sel.Name == "Lock" || s.Sel.Name == "RLock") {
+				hasLock = true
+			}
+		case *ast.AssignStmt:
+			for _, l := range st.Lhs {
+				assigned[l] = true
+			}
+		case *ast.IncDecStmt:
+			assigned[st.X] = true
+		case *ast.UnaryExpr:
+			if st.Op == token.AND {
+				assigned[st.X] = true
+			}
+		}
+		return true
+	})
+	ast.Inspect(body, func(n ast.Node) bool {
+		e, ok := n.(*ast.SelectorExpr)
+		if !ok {
+			return true
+		}
+		id, ok := e.X.(*ast.Ident)
+		if !ok || id.Name != recv {
+			return true
+		}
+		sel, ok := o.p.info.Uses[e.Sel]
+		if !ok {
+			o.f.bad("foreign: unresolved selector %s.%s", recv, e.Sel.Name)
+			return false
+		}
+		switch obj := sel.(type) {
+		case *types.Var:
+			// a mutex is there to be used concurrently
+			if !strings.HasSuffix(obj.Type().String(), "sync.Mutex") && !strings.HasSuffix(obj.Type().String(), "sync.RWMutex") {
+				out[fieldOp{e.Sel.Name, assigned[ast.Expr(e)], hasLock}] = true
+			}
+		case *types.Func:
+			if fd := o.p.funcDecl("Client", obj.Name()); fd != nil && fd.Body != nil {
+				for a := range o.fn(fd) {
+					out[a] = true
+				}
+			} else {
+				o.f.bad("foreign: method Client.%s has no body in package ch", obj.Name())
+			}
+		}
+		return false
+	})
+	return out
+}
+
+func (o *fieldCtx) fn(fd *ast.FuncDecl) map[fieldOp]bool {
+	if m, ok := o.memo[fd]; ok {
+		return m
+	}
+	if o.stack[fd] {
+		return nil
+	}
+	o.stack[fd] = true
+	m := map[fieldOp]bool{}
+	if fd.Recv != nil && len(fd.Recv.List) == 1 && recvName(fd.Recv.List[0].Type) == "Client" && len(fd.Recv.List[0].Names) == 1 {
+		m = o.scan(fd.Body, fd.Recv.List[0].Names[0].Name)
+	}
+	delete(o.stack, fd)
+	o.memo[fd] = m
+	return m
+}
+
+func init() { steps = append(steps, extractForeign) }
+
+func extractForeign(repo string, f *Facts) {
+	p, err := load(repo, func(n string) bool { return n != "verif_gate.go" })
+	if err != nil {
+		f.bad("foreign: cannot load package ch: %v", err)
+		return
+	}
+	o := &fieldCtx{p: p, f: f, memo: map[*ast.FuncDecl]map[fieldOp]bool{}, stack: map[*ast.FuncDecl]bool{}}
+	emit := func(name string, fns []string) {
+		var rows []string
+		for i, fn := range fns {
+			fd := p.funcDecl("Client", fn)
+			if fd == nil || fd.Body == nil {
+				f.bad("foreign: (*Client).%s not found", fn)
+				continue
+			}
+			for a := range o.fn(fd) {
+				rows = append(rows, fmt.Sprintf("(%d, %s, %v, %v)", i, leanStr(a.field), a.assign, a.guarded))
+			}
+		}
+		sort.Strings(rows)
+		f.raw("def %s : List (Nat × String × Bool × Bool) := [%s]\n", name, strings.Join(rows, ", "))
+	}
+	f.raw("\n/-- fields of *Client read / re-assigned by a call (Do = 0, Ping = 1, with everything they call and start), and by what another\ngoroutine may run meanwhile (Close = 0, IsClosed = 1): (function, field, re-assigned, inside a function that takes a lock) -/\n")
+	emit("callerFieldOps", []string{"Do", "Ping"})
+	emit("foreignFieldOps", []string{"Close", "IsClosed"})
+}
